@@ -70,6 +70,16 @@ func NewAuthorizer(cfg Config) *Authorizer {
 		if name == "" {
 			continue
 		}
+		if prev, ok := principals[name]; ok {
+			// The same principal may be listed more than once (or under names that
+			// differ only in surrounding whitespace). Keep the rules of every entry:
+			// letting the last entry win would silently drop earlier deny rules.
+			p = PrincipalRules{
+				Name:  prev.Name,
+				Allow: append(append([]Rule(nil), prev.Allow...), p.Allow...),
+				Deny:  append(append([]Rule(nil), prev.Deny...), p.Deny...),
+			}
+		}
 		principals[name] = p
 	}
 	return &Authorizer{
